@@ -514,7 +514,8 @@ def rule_filter_laws(ctx):
         t = render(ap["body"]).replace(" ", "")
         pva = sgrep.params(ap)
         envp = sgrep.lets(ap["body"])
-        oka = len(pva) == 3 and sgrep.has(ap["body"], "self.primary_file_ids_mut().push(__f)", None, {"__f": pva[1]}) and sgrep.has(ap["body"], "self.primary_mut().push(ReportLabel::primary(__f, __l).with_message(__m))", envp, {"__f": pva[1], "__l": pva[0], "__m": pva[2]})
+        # (trivial getters on self are read as the field: normalize.py N4)
+        oka = len(pva) == 3 and (sgrep.has(ap["body"], "self.primary_file_ids_mut().push(__f)", None, {"__f": pva[1]}) or sgrep.has(ap["body"], "self.primary_file_ids.push(__f)", None, {"__f": pva[1]})) and (sgrep.has(ap["body"], "self.primary_mut().push(ReportLabel::primary(__f, __l).with_message(__m))", envp, {"__f": pva[1], "__l": pva[0], "__m": pva[2]}) or sgrep.has(ap["body"], "self.primary.push(ReportLabel::primary(__f, __l).with_message(__m))", envp, {"__f": pva[1], "__l": pva[0], "__m": pva[2]}))
         ctx.check(R, "Report::add_primary/records-file-id", oka, t[:200], site(REP, ap))
     # constructors set the category they are named after
     for nm, cat in (("error", "Error"), ("warning", "Warning"), ("info", "Info")):
